@@ -83,8 +83,8 @@ package decoder
 //@   ensures [C12] result != nil
 //@   ensures [C12] typeis(result, "decoder.unknownExpression") || result.expr == expr
 //@ iface decoder.Expression.HoverAtPos (ctx, pos) (result)
-//@   requires [C12] typeis(self, "decoder.unknownExpression") || self.expr.Range().ContainsPos(pos)
-//@   ensures [C12] result == nil || (result.Range.ContainsPos(pos) && len(result.Content.Value) > 0)
+//@   requires [C12,C02] typeis(self, "decoder.unknownExpression") || self.expr.Range().ContainsPos(pos)
+//@   ensures [C12,C02] result == nil || (result.Range.ContainsPos(pos) && len(result.Content.Value) > 0)
 //@ contract (decoder.Any).hoverNonComplexExprAtPos (a, ctx, pos) (result)
 //@   requires [C12] a.expr.Range().ContainsPos(pos)
 //@   ensures [C12] result == nil || (result.Range.ContainsPos(pos) && len(result.Content.Value) > 0)
@@ -206,9 +206,9 @@ package decoder
 //@   ghost effSchema after schemahelper.MergeBlockBodySchemas#1 : mergedSchema
 //@   assert before symbolsForBody#1 : [C14,C16,name:nested-body-read-with-its-effective-schema] implies(bodySchema != nil && haskey(bodySchema.Blocks, block.Type), effective && arg2 == effSchema)
 //@   loop 1 iter [C14] len(symbols) == old(len(symbols)) + 1
-//@   loop 1 iter [C14] typeis(symbols[len(symbols)-1], "*decoder.AttributeSymbol") && as(symbols[len(symbols)-1], "*decoder.AttributeSymbol").AttrName == name && as(symbols[len(symbols)-1], "*decoder.AttributeSymbol").rng == attr.Range
+//@   loop 1 iter [C14,C02] typeis(symbols[len(symbols)-1], "*decoder.AttributeSymbol") && as(symbols[len(symbols)-1], "*decoder.AttributeSymbol").AttrName == name && as(symbols[len(symbols)-1], "*decoder.AttributeSymbol").rng == attr.Range
 //@   loop 2 iter [C14] len(symbols) == old(len(symbols)) + 1
-//@   loop 2 iter [C14] typeis(symbols[len(symbols)-1], "*decoder.BlockSymbol") && as(symbols[len(symbols)-1], "*decoder.BlockSymbol").Type == block.Type && as(symbols[len(symbols)-1], "*decoder.BlockSymbol").Labels == block.Labels && as(symbols[len(symbols)-1], "*decoder.BlockSymbol").rng == block.Range
+//@   loop 2 iter [C14,C02] typeis(symbols[len(symbols)-1], "*decoder.BlockSymbol") && as(symbols[len(symbols)-1], "*decoder.BlockSymbol").Type == block.Type && as(symbols[len(symbols)-1], "*decoder.BlockSymbol").Labels == block.Labels && as(symbols[len(symbols)-1], "*decoder.BlockSymbol").rng == block.Range
 //@ contract (*decoder.PathDecoder).nestedSymbolsForExpr (d, expr) (result)
 //@   loop 1 iter [C14] len(symbols) == old(len(symbols)) + 1
 //@   loop 1 iter [C14] typeis(symbols[len(symbols)-1], "*decoder.ExprSymbol") && as(symbols[len(symbols)-1], "*decoder.ExprSymbol").rng == item.Range()
